@@ -21,7 +21,7 @@ package runner
 // The body (sandbox.Run) starts only after waitForTasks returned nil; if it returned an error
 // the body never runs, the error is appended to the task's scope, and on every path the lock
 // handler is released after it was taken and the task and its context are closed exactly once.
-//@ func (*Runner).runGo [C14 C15]
+//@ func (*Runner).runGo [C14 C15 C16]
 //@   layers contract trace
 //@   trace waitForTasks as WAITLIST bind werr
 //@   trace TaskWriter.LockMap as LOCKMAP bind lm
@@ -37,6 +37,10 @@ package runner
 //@   trace_ensures werr != nil : ^WAITLIST APPERR CTXCLOSE TASKCLOSE $
 //@   trace_ensures werr == nil : ^WAITLIST LOCKMAP LOCK RUN (APPERR )*UNLOCK CTXCLOSE TASKCLOSE $
 //@   trace_ensures werr == nil && runErr != nil : ^WAITLIST LOCKMAP LOCK RUN APPERR UNLOCK CTXCLOSE TASKCLOSE $
+// the sandbox loop runs in a child of the task's scope that shares the task's context: whatever
+// fails in the body - a command, the script reader, a nested task - has failed the task (and, for
+// pip:try, the body)
+//@   at_call NewChildIOContext requires $1.Scope.ContextScope == nil
 
 // Every name of the wait list is looked up in order; the result is nil only if every named
 // task exists, finished (Wait returned nil) and holds no error.
